@@ -16,6 +16,16 @@ check('C17', 'proof',
       'Trusted: Coq kernel, extraction (ExtrOcamlBasic) + OCaml driver, the Python harness; the float formula itself is not proved, its whole domain is enumerated.',
       'Coq proof of the integer model + exhaustive domain sweep and differential run against the extracted model', 'DESIGN.md §6 C17')
 
+check('C03', 'proof',
+      'Coq theorem decode_wire_encode_partial: for every type tree (12 constructors, any depth/width), header size, typed value within the '
+      'code ranges and tail, decoding the stated wire encoding returns exactly the value and the tail (plus argument-list lifting and the '
+      'prefix-consumption theorem); the full statement is kept visible and refuted by three vm_compute witnesses that are the known findings '
+      'C03-a/b/c. The model is tied to the code by generated-table instance theorems (SIMPLE_TYPES, struct formats, sizes) and a three-way '
+      'differential run: spec encoder -> {extracted decoder, library decoder} on generated types/values/malformed bytes, and every method and '
+      'property payload of the real recordings decoded by the independent model with consumption compared.',
+      'Trusted: Coq kernel, extraction + driver, translators/harness, CPython struct/BytesIO, lxml. Header sizes < 0 and int() corner syntax are outside the model.',
+      'Coq proof over the type-tree model + generated instance theorems + differential run (extracted model vs library)', 'DESIGN.md §6 C03')
+
 NOT_YET = {}
 ALL = ['C%02d' % i for i in range(1, 20)]
 def main():
